@@ -27,6 +27,7 @@ Specification side (from the statement, not from the code)
                from the running composition]
   adiabatic:   Hnet' = Hnet + Q
 """
+import os
 import types
 import numpy as np
 import thermosteam as tmo
@@ -34,6 +35,10 @@ from thermosteam.exceptions import InfeasibleRegion
 from thermosteam.base import SparseVector
 from engine.api import group
 from engine.sx import tmo_world as W
+
+# engine option (engine/sx/sym.py, Ctx.prove): discharge each VC first on a fresh one-shot solver; the long-lived path
+# solver is orders of magnitude slower on the nonlinear VCs of this property (products flow * X * Hf, n/F * F).
+os.environ.setdefault('VERIF_PROVE_FRESH_MS', '8000')
 
 RXN = 'thermosteam.reaction._reaction:'
 IDS = ('Water', 'Ethanol', 'Methanol')
@@ -176,13 +181,20 @@ def all_specs(prog):
 
 # --------------------------------------------------------------------------- building the real objects
 
-def make_spec(w, tag, desc, basis, unit_reactant=False, nonzero=True):
-    """desc = {'nu': [[ID, phase|None], ...], 'reactant': ID}: plants the coefficients (reactant < 0) and X in [0,1]."""
+_FIXED_NU = (2., 0.5, 3., -0.25, 1.5, 0.75)
+
+
+def make_spec(w, tag, desc, basis, unit_reactant=False, nonzero=True, fixed=None):
+    """desc = {'nu': [[ID, phase|None], ...], 'reactant': ID}: plants the coefficients (reactant < 0) and X in [0,1].
+    unit_reactant: the reactant's coefficient is -1 and the others are the numbers `fixed` yields (the stoichiometry is
+    then part of the configuration; conversions, flows and the chemicals' data stay symbolic)."""
     nu, r = {}, None
     for ID, ph in desc['nu']:
         if ID == desc['reactant']:
             r = (ph, ID)
             nu[ph, ID] = -1. if unit_reactant else w.real(f'{tag}.nu.{ID}', hi=0., hi_strict=True)
+        elif unit_reactant and fixed is not None:
+            nu[ph, ID] = next(fixed)
         else:
             nu[ph, ID] = w.real(f'{tag}.nu.{ID}', nonzero=nonzero)
     return Spec(nu, r, w.real(f'{tag}.X', lo=0., hi=1.), basis)
@@ -197,15 +209,16 @@ def make_rxn(sp, chems, tagged, phases=PH, cls=None):
     return cls(d, reactant=sp.r[1], X=sp.X, chemicals=chems, basis=sp.basis)
 
 
-def make_program(w, cfgprog, basis, chems, tagged, tag='rx', unit_reactant=False):
+def make_program(w, cfgprog, basis, chems, tagged, tag='rx', unit_reactant=False, fixed=None):
     kind = cfgprog['kind']
+    if unit_reactant and fixed is None: fixed = iter(_FIXED_NU * 3)
     if kind == 'system':
         members, objs = [], []
         for n, m in enumerate(cfgprog['members']):
-            p, o = make_program(w, m, basis, chems, tagged, f'{tag}{n}', unit_reactant)
+            p, o = make_program(w, m, basis, chems, tagged, f'{tag}{n}', unit_reactant, fixed)
             members.append(p); objs.append(o)
         return {'kind': 'system', 'members': members}, tmo.ReactionSystem(*objs)
-    specs = [make_spec(w, f'{tag}{n}' if len(cfgprog['rxns']) > 1 else tag, d, basis, unit_reactant)
+    specs = [make_spec(w, f'{tag}{n}' if len(cfgprog['rxns']) > 1 else tag, d, basis, unit_reactant, fixed=fixed)
              for n, d in enumerate(cfgprog['rxns'])]
     rxns = [make_rxn(sp, chems, tagged) for sp in specs]
     if kind == 'single': obj = rxns[0]
@@ -300,6 +313,14 @@ def make_stream(w, th, tagged, phase, present, name='s'):
                 out[(ph if tagged else None), ID] = sv.dct.get(j, 0.)
         return out
     return s, read, feed
+
+
+def forget(s):
+    """Empty the stream's property memo so that the next read is computed from the present state.  (Whether the memo
+    would have noticed the change is property C14; comparing the old and the new composition symbolically is what makes
+    it expensive here.)"""
+    s._property_cache_key = (None, None)
+    s._property_cache.clear()
 
 
 def formation_flow(data, state, mw=None):
@@ -552,7 +573,7 @@ def _stream_cfgs(tier, what):
     for tagged in (False, True):
         progs = programs(tier, tagged)
         for pname, prog in progs.items():
-            multi = _n_rxns(prog) >= 2
+            multi = _n_rxns(prog) >= 2 or what == 'adia'
             variants = [('mol', 'P', 'first-pos')]
             if pname in ('single[a>bc]', 'parallel[a>b|b>c]', 'series[a>b;b>c]') or tier == 'thorough':
                 variants += [('wt', 'P', 'first-pos'), ('mol', 'Q', 'first-pos')]
@@ -608,6 +629,7 @@ def _isothermal(w, cfg, literal):
     except InfeasibleRegion:
         w.ensure('InfeasibleRegion only if a flow would be negative', w.Or(*[w.lt(e[k], 0.) for k in e]))
         return
+    forget(s)
     H1, Hf1, Hnet1 = s.H, s.Hf, s.Hnet
     got = read()
     feasible = w.And(*[w.ge(e[k], 0.) for k in e])
@@ -719,6 +741,7 @@ def adiabatic(w, cfg):
     except SolveFailed:
         w.ensure('solver failure is passed on only where no other phase can be tried', tagged)
         return
+    forget(s)
     Hnet1 = s.Hnet
     got = read()
     gu = _units(got, mw, by_mass)
